@@ -265,6 +265,19 @@ DropLevel(a, k) ==
     /\ reg' = [reg EXCEPT ![a].lvl = @ - k]
     /\ UNCHANGED keys
 
+\* SetScale(ct, default scale * 2^k), in place: the message is unchanged and the recorded scale is the target; the ratio
+\* target / current is applied as a constant, which costs one rescaling unless the ratio is an integer (the scale
+\* is then 2^j with j at most the target's exponent). Without a level left for that rescaling the call fails.
+SetScaleInt(a, k) == (\A i \in 1..(L + 1) : reg[a].sx.e[i] = 0) /\ reg[a].sx.two <= DeltaBits + k
+SetScaleErr(a, k) == ~SetScaleInt(a, k) /\ reg[a].lvl <= K - 1
+SetScale(a, k, err) ==
+    /\ a \in Reg /\ reg[a].ok /\ k \in 0..2
+    /\ Abs(reg[a].ls - (DeltaBits + k) * 1048576) <= 8 * 1048576      \* contract covered here: a ratio within 2^-8 .. 2^8
+    /\ err = SetScaleErr(a, k)
+    /\ reg' = [reg EXCEPT ![a] = IF err THEN Dead
+                                ELSE MkOut(reg[a].m, reg[a].fb, SxPow2(DeltaBits + k), IF SetScaleInt(a, k) THEN reg[a].lvl ELSE reg[a].lvl - K, reg[a].deg, reg[a].md)]
+    /\ UNCHANGED keys
+
 Reset(ks) == keys' = ks /\ reg' = [r \in Reg |-> Dead]
 
 Init == keys = "full" /\ reg = [r \in Reg |-> Dead]
